@@ -113,6 +113,16 @@ where
         }
     }
 
+    /// Wake every task waiting for a stream id: the connection is over, they have to
+    /// observe its error instead of waiting for a MAX_STREAMS frame that will never come.
+    fn wake_all(&mut self) {
+        for wakers in self.wakers.iter_mut() {
+            for waker in wakers.drain(..) {
+                waker.wake();
+            }
+        }
+    }
+
     pub fn revise_max_streams(
         &mut self,
         zero_rtt_rejected: bool,
@@ -207,6 +217,12 @@ where
     /// but it is very very hard to happen.
     pub fn poll_alloc_sid(&self, cx: &mut Context<'_>, dir: Dir) -> Poll<Option<StreamId>> {
         self.0.lock().unwrap().poll_alloc_sid(cx, dir)
+    }
+
+    /// Wake every task blocked in [`Self::poll_alloc_sid`], called when the connection
+    /// is closed or failed so that pending `open_*_stream` calls return its error.
+    pub fn wake_all(&self) {
+        self.0.lock().unwrap().wake_all();
     }
 
     pub fn revise_max_streams(
